@@ -222,3 +222,56 @@ Proof.
   - intros d Hin. apply result_type_upper, Hin.
   - intros g Hin. apply (fold_max_upper (map bits_stored_of (go_files go)) 0). right. apply in_map, Hin.
 Qed.
+
+(* ------------------------------------------------------------------------------------------ *)
+(** * The DICOM rescale *)
+
+Lemma row_rescaled_spec r : forall zs xs, row_rescaled r zs xs = true ->
+  forall j z, nth_error zs j = Some z -> exists x, nth_error xs j = Some x /\ (inject_Z z == rescaled_val r x)%Q.
+Proof.
+  induction zs as [|z0 zs IH]; intros [|x0 xs] H j z Hj; cbn [row_rescaled] in H; try discriminate.
+  - destruct j; discriminate.
+  - apply andb_prop in H as [H0 H1]. destruct j as [|j]; cbn [nth_error] in *.
+    + injection Hj as <-. exists x0. split; [reflexivity | apply Qeq_bool_iff, H0].
+    + apply (IH xs H1 j z Hj).
+Qed.
+
+Lemma rescaled_ok_spec g r :
+  rescaled_ok g r = true ->
+  forall i j z, pix_at g i j = Some z -> exists x, stored_at r i j = Some x /\ (inject_Z z == rescaled_val r x)%Q.
+Proof.
+  unfold rescaled_ok, pix_at, stored_at. generalize (g_pix g) (rs_stored r).
+  induction l as [|zr zs IH]; intros [|xr xs] H i j z Hz; cbn [rows_rescaled] in H; try discriminate.
+  - destruct i; discriminate.
+  - apply andb_prop in H as [H0 H1]. destruct i as [|i]; cbn [nth_error] in *.
+    + apply (row_rescaled_spec r zr xr H0 j z Hz).
+    + apply (IH xs H1 i j z Hz).
+Qed.
+
+(** C02 (a) with the rescale made explicit: the voxel of pixel (i, j) of the file in cell (s, t, v) holds
+    [rs_den * (slope * stored + intercept)] of that file's stored pixel *)
+Theorem conv_values_rescaled gs st code embed st' go (rs : gfile -> rescale) :
+  wf st -> gfiles_ok gs st ->
+  conv_geom gs st code embed = (st', Ok go) ->
+  (forall g, In g (go_files go) -> rescaled_ok g (rs g) = true) ->
+  exists S T V r c,
+    0 < S /\ 0 < T /\ 0 < V /\ o_shape (go_nifti go) = grid_shape r c S T V /\
+    forall s t v i j, s < S -> t < T -> v < V -> i < r -> j < c ->
+      exists g x z idx',
+        file_at gs (go_ord0 go) (cell_pos S T s t v) = Some g /\ stored_at (rs g) i j = Some x /\
+        in_bounds (ashape (go_data go)) idx' = true /\
+        apply_aff (go_T go) idx' = Some (cell_idx (length (grid_shape r c S T V)) i j s t v) /\
+        aget (go_data go) idx' = Some z /\ (inject_Z z == rescaled_val (rs g) x)%Q.
+Proof.
+  intros Hwf Hok H Hrs.
+  destruct (conv_values gs st code embed st' go Hwf Hok H) as (S & T & V & r & c & HS & HT & HV & Hsh & Hlen & Hall & _).
+  destruct (conv_geom_ok _ _ _ _ _ _ H) as (_ & _ & _ & _ & _ & _ & _ & _ & _ & _ & _ & _ & (Hgl & _) & _).
+  destruct (gfiles_of_nth _ _ _ Hgl) as [_ Hn].
+  exists S, T, V, r, c. repeat (split; [assumption|]).
+  intros s t v i j Hs Ht Hv Hi Hj.
+  destruct (Hall s t v i j Hs Ht Hv Hi Hj) as (g & z & idx' & Hg & Hz & Hb & Ha & Hget & _).
+  assert (Hk : cell_pos S T s t v < length (go_ord0 go)) by (rewrite Hlen; apply cell_pos_lt; assumption).
+  assert (Hin : In g (go_files go)) by (eapply nth_error_In; rewrite (Hn _ Hk); exact Hg).
+  destruct (rescaled_ok_spec g (rs g) (Hrs g Hin) i j z Hz) as (x & Hx & Hv').
+  exists g, x, z, idx'. repeat split; assumption.
+Qed.
